@@ -618,6 +618,9 @@ class CFG:
                 if depth > 0:
                     v = self.origin_expr(d, v, depth - 1, tests) or v
                 test_mapping[name] = v
+            elif tests and isinstance(v, ast.Call) and isinstance(v.func, ast.Name) and v.func.id == 'bool' and len(v.args) == 1 \
+                    and not v.keywords and _pure_chain(v.args[0]) and self._stable_between(d, n, v.args[0]):
+                test_mapping[name] = v.args[0]   # `flag = bool(x)`: at a boolean position the flag is the truth value of x
         if not mapping and not test_mapping:
             return None
 
